@@ -20,8 +20,11 @@ add('KF-imap-loss', ['C01', 'C04'], ['job_never_resolved'],
 add('KF-imap-loss', ['C01', 'C08'], ['terminated_job_not_resolved'],
     {'job_kind': IMAP, 'lane': 'sim'},
     'imap/imap_unordered: terminate_job on a worker running an imap part is not reported to the consumer (same path as a lost worker)')
+add('KF-ack-after-reap', ['C01', 'C04'], ['job_never_resolved'],
+    {'ack_after_reap': True, 'reaped_later': False, 'job_kind': ['apply', 'map'], 'lane': 'sim'},
+    'worker death noticed (reaped) before its ACK was processed and no other worker exited afterwards: the job is never examined again')
 add('KF-ack-after-reap', ['C01', 'C04'],
-    ['loss_not_reported_after_grace_period', 'loss_message_wrong_status_or_job', 'job_never_resolved'],
+    ['loss_not_reported_after_grace_period', 'loss_message_wrong_status_or_job'],
     {'ack_after_reap': True, 'lane': 'sim'},
     'worker death noticed (reaped) before its ACK was processed: the job is examined again only when some other worker exits later, and is then reported with "exitcode 0" instead of the real status (_join_exited_workers only looks at jobs when it cleaned a worker; exit status of earlier reaped workers is forgotten)')
 add('KF-send-failed-residue', ['C01'], ['job_cache_not_empty_at_quiescence'],
